@@ -9,8 +9,9 @@ world, all from one thread. It is executed
     lengths, marked set, world version) and presents every handle of every live world to every other live world:
     `ORACLE frame` (a world other than the addressed one changed), `ORACLE foreign-valid` (a handle accepted by a world
     with another id), `ORACLE own-handle-invalid` (a fresh handle rejected by its own world / not carrying its id),
-    `ORACLE duplicate-id` (an automatically numbered world got the id of a live world) = the property fails on the
-    implementation;
+    `ORACLE duplicate-id` (an automatically numbered world got the id of a live world), `ORACLE alien-handle` (a world keeps /
+    hands out a handle that is not its own), `ORACLE buffers` (a locked world has fewer command buffers than its own
+    dispatcher has threads) = the property fails on the implementation;
   * on the Lean process model (`driver worlds`, Model/Worlds.lean: the allocator of the fixed code + one WM per world):
     the tie, line by line (ids handed out, handles, per-world dumps, cross-world queries).
 
@@ -50,14 +51,13 @@ CAP = 1024
 class WorldGen(wc.Gen):
     """per-world op generator of the world properties, restricted to the calling thread"""
 
-    def __init__(self, rng, malformed, wid):
-        super().__init__(rng, MIX, max_threads=1, malformed=malformed, lock_bias=0.06, shared=True)
-        self.ref.threads = 0
+    def __init__(self, rng, malformed, wid, threads=0):
+        super().__init__(rng, MIX, max_threads=1, malformed=malformed, lock_bias=0.08 if threads else 0.06, shared=True)
+        # threads = workers of the world's PRIVATE dispatcher that scripted `tK` ops may run on (0: calling thread only;
+        # worlds on the shared dispatcher are driven from the calling thread - its workers cannot be parked for two worlds)
+        self.ref.threads = threads
         self.lines = []
         self.wid = wid
-
-    def thread(self):
-        return 0
 
     def any_handle(self):
         """malformed stream: stale own handles, null, and patterns stamped with ANOTHER world's id (a raw pattern carrying
@@ -90,7 +90,7 @@ class WorldGen(wc.Gen):
 class ProcGen:
     """process history: python mirror of the FIXED allocator only to pick legal explicit ids and to bound the load"""
 
-    def __init__(self, rng, malformed=0.15, p_shared=0.5, explicit=True):
+    def __init__(self, rng, malformed=0.15, p_shared=0.5, explicit=True, scripted=True):
         self.r = rng
         self.lines = []
         self.live = {}            # ordinal -> dict(id, gen, shared)
@@ -101,6 +101,7 @@ class ProcGen:
         self.malformed = malformed
         self.p_shared = p_shared
         self.explicit = explicit
+        self.scripted = scripted
         self.created = 0
 
     def emit(self, s):
@@ -120,15 +121,18 @@ class ProcGen:
     def load(self):
         return len(self.live) + len([x for x in self.reserved if x not in self.live_ids()])
 
-    def new(self, explicit_id=None, shared=None):
+    def new(self, explicit_id=None, shared=None, threads=None):
         shared = (self.r.random() < self.p_shared) if shared is None else shared
+        # private dispatchers of different sizes; small ones first as often as big ones first
+        threads = 0 if shared else (self.r.choice([1, 1, 2, 3, 4]) if threads is None else threads)
+        ctx = "ctx=shared" if shared else "ctx=own threads=%d" % threads
         if explicit_id is None:
             wid = self.next_id()
-            self.emit("world new auto ctx=%s" % ("shared" if shared else "own"))
+            self.emit("world new auto %s" % ctx)
         else:
             wid = explicit_id
-            self.emit("world new id=%d ctx=%s" % (wid, "shared" if shared else "own"))
-        self.live[self.n] = dict(id=wid, gen=WorldGen(self.r, self.malformed, wid), shared=shared)
+            self.emit("world new id=%d %s" % (wid, ctx))
+        self.live[self.n] = dict(id=wid, gen=WorldGen(self.r, self.malformed, wid, threads if self.scripted else 0), shared=shared)
         self.cur = self.n
         self.n += 1
         self.created += 1
@@ -176,7 +180,18 @@ class ProcGen:
             return
         self.use(a)
         e = self.r.randrange(g.ref.n)
-        if self.r.random() < 0.7:
+        k = self.r.random()
+        if a != b and k < 0.45:
+            # world b is operated on through a handle of world a (often with the id and version of one of b's own entities)
+            locked = self.live[b]["gen"].ref.lock > 0
+            op = self.r.choice(["remove", "destroynow", "destroy"] + (["assign", "assign", "remove"] if locked else []))
+            if op == "assign":
+                self.emit("in %d assign %d %s %d" % (b, e, self.r.choice("ABCFGH"), 900000 + self.r.randrange(1000)))
+            elif op == "remove":
+                self.emit("in %d remove %d %s" % (b, e, self.r.choice(wc.LETTERS)))
+            else:
+                self.emit("in %d %s %d" % (b, op, e))
+        elif k < 0.8:
             self.emit("validin %d %d" % (b, e))
         else:
             self.emit("getin %d %d %s" % (b, e, self.r.choice(wc.LETTERS)))
@@ -236,7 +251,7 @@ def gen_interleaved(rng, n, **kw):
 def gen_sequential(rng, total, keep, with_churn):
     """`total` worlds built one after the other, at most `keep` alive at once, every one used (an entity created, written,
     queried in its own and in a neighbour world) - crosses 1024 / 2048 when total does"""
-    g = ProcGen(rng, malformed=0.0, explicit=False)
+    g = ProcGen(rng, malformed=0.0, explicit=False, scripted=False)
     while g.created < total:
         if with_churn and rng.random() < 0.05:
             g.churn(rng.randint(50, 300), shared=rng.random() < 0.8)
@@ -323,6 +338,14 @@ def boundary_cases():
                 "world new auto\ncreate A\nworld new auto\ncreate A\nvalidin 0 0\nuse 0\nvalidin 3 0\nvalidin 4 0\ndumpall\n"))
     out.append(("boundary:reserve-then-explicit", "world reserve\nworld new auto\ncreate A\nworld new id=0 ctx=own\ncreate A\nworld drop 1\n"
                 "world new auto\ncreate A\nworld drop 0\nworld new auto\ncreate A\nworld new auto\ncreate A\ndumpall\n"))
+    out.append(("boundary:small-dispatcher-locks-first", "world new auto ctx=own threads=1\ncreate A\nlock\nt1 create A\nunlock\n"
+                "world new auto ctx=own threads=4\ncreate A\nlock\nt4 create B\nt3 assign 0 C 5\nt2 create -\nt1 destroynow 0\nunlock\n"
+                "world new auto ctx=own threads=2\ncreate A\nlock\nt2 create B\nunlock\ndumpall\n"))
+    out.append(("boundary:big-dispatcher-locks-first", "world new auto ctx=own threads=4\ncreate A\nlock\nt4 create A\nunlock\n"
+                "world new auto ctx=own threads=1\ncreate A\nlock\nt1 create B\nunlock\nuse 0\nlock\nt3 create B\nunlock\ndumpall\n"))
+    out.append(("boundary:deferred-through-foreign-handle", "world new auto ctx=shared\ncreate A\ncreate A,B\nworld new auto ctx=shared\n"
+                "create A\ncreate A,B\nlock\nuse 0\nin 1 assign 0 C 7\nin 1 remove 1 B\nin 1 destroynow 0\nin 1 destroy 1\nuse 1\nunlock\n"
+                "update\ndumpall\nuse 0\nin 1 remove 1 B\nin 1 destroynow 0\ndumpall\n"))
     return out
 
 
@@ -514,7 +537,7 @@ def _run(ctx, rng, sess):
             samples=sess.samples, op_histogram=dict(sorted(sess.hist.items())),
             worlds_built=st.get("worlds", 0), max_worlds_alive=st.get("max_live", 0), max_world_id_seen=st.get("max_id", 0),
             ops_executed=st.get("ops", 0), frame_checks=st.get("frame_checks", 0), foreign_handle_checks=st.get("foreign_checks", 0),
-            own_handle_checks=st.get("own_checks", 0),
+            own_handle_checks=st.get("own_checks", 0), archetype_handle_checks=st.get("archetype_handle_checks", 0),
             exhaustive_allocator_len=(6 if ctx.thorough else 5),
             oracle_failures=len(failures["oracle"]), aborts=len(failures["abort"]), tie_differences=len(failures["tie"]),
             trusted_base=["Lean 4.33 kernel and the axioms listed under axioms_used",
